@@ -540,31 +540,117 @@ def r6_constant_split(ctx, sym):
                   construct='find_all / _handle_visit_constant')
 
 
-def r7_literal_identity(ctx, sym):
-    ctx.rule('R7', "the one comparison of primitive field values in shallow_match_main (which decides "
-                   "ensure_literal/prevent_literal) distinguishes values CPython's == identifies across "
-                   "types (1 == True == 1.0): it must compare types as well as values")
+LITERALS = [1, True, 1.0, 0, False, 0.0, 2, 'a', 'b', '', None, b'a', 1j, ...]
+
+
+def shallow_match_table(ctx, sym):
+    """StretchyTreeMatcher.shallow_match_main executed abstractly on pairs of model nodes. Yields
+    (tag, description, matched: bool | 'raises ...', should_match: bool)."""
+    from ..fdeval import Raised
+    cm = CaitModel(ctx, sym)
     mod = ctx.repo.module(MATCH)
     fn = mod.func('StretchyTreeMatcher.shallow_match_main')
     ctx.analysed_function(mod, fn)
-    sites = []
-    for n in ast.walk(fn):
-        if isinstance(n, ast.If) and isinstance(n.test, ast.Call) and call_name(n.test) == 'is_primitive':
-            for st in n.body:
-                if isinstance(st, ast.Assign) and norm(st.targets[0]) == 'is_match':
-                    sites.append((n, st))
-    ctx.require(len(sites) >= 1, "primitive-field comparison in shallow_match_main not found")
-    for guard, st in sites:
-        a = norm(guard.test.args[0])
-        v = st.value
-        verdict = classify_typed_equality(v, mod, sym)
-        if verdict is None:
-            raise AnalysisError("C08 R7: comparison %s is outside the recognised idioms" % norm(v))
-        ctx.check(verdict, 'R7', 'shallow_match_main:primitive_compare', mod, st,
-                  "primitive fields are compared with a bare `==`, which identifies 1, True and 1.0 "
-                  "(and 0, False, 0.0): a literal of another type counts as an occurrence",
-                  "prevent_literal(1) fires on the program `x = True` / `y = 1.0`; ensure_literal(0) is "
-                  "satisfied by `False`")
+
+    def iter_fields(node):
+        return [(k, v) for k, v in node.attrs.items()
+                if not k.startswith('__') and not k.startswith('method:') and k != 'cait_node']
+
+    def run(ins, std, ignores=None, meta=True):
+        fd = cm.fd(mod)
+        fd.resolver = (lambda inner: (lambda name: 'ast.' + name[4:] if name.startswith('ast.') else inner(name)))(
+            fd.resolver)
+        base_isinstance = fd.calls['isinstance']
+
+        def b_isinstance(o, t):
+            ts = t if isinstance(t, tuple) else (t,)
+            for x in ts:
+                if isinstance(x, str) and x.startswith('ast.') and isinstance(o, Obj) and \
+                        o.attrs.get('__astclass__') == x[4:]:
+                    return True
+            return base_isinstance(o, tuple(x for x in ts if not (isinstance(x, str) and x != 'ast.AST')))
+        fd.calls['isinstance'] = b_isinstance
+        fd.calls['type'] = lambda o: type(o) if not isinstance(o, Obj) else Obj(
+            'type', __name__=o.attrs.get('__astclass__', o._name), __closed__=True)
+        fd.calls['ast.iter_fields'] = iter_fields
+        pairs = []
+        amap = Obj('AstMap')
+        amap.attrs['method:add_node_pairing'] = lambda a, b: pairs.append((a, b))
+        fd.calls['AstMap'] = lambda: amap
+        me = Obj('matcher')
+        me.attrs['__classdef__'] = mod.cls('StretchyTreeMatcher')
+        me.attrs['method:metas_match'] = lambda *a, **k: meta
+        try:
+            got = fd.call_function(fn, [ins.attrs['cait_node'], std.attrs['cait_node'], True, ignores],
+                                   bound_self=me)
+        except Raised as e:
+            return 'raises %s (%s)' % (e.kind, e.detail)
+        except Inconclusive as e:
+            raise AnalysisError("shallow_match_main outside the decidable fragment: %s" % e)
+        if isinstance(got, list) and len(got) == 1 and pairs == [(ins.attrs['cait_node'], std.attrs['cait_node'])]:
+            return True
+        if got == [] and not pairs:
+            return False
+        return 'returns %r' % (got,)
+
+    def const(v):
+        return cm.ast('Constant', value=v, kind=None)
+
+    def name(x):
+        return cm.ast('Name', id=x, ctx=cm.ast('Load'))
+    for a in LITERALS:
+        for b in LITERALS:
+            yield ('literal', 'pattern literal %r against student literal %r' % (a, b), run(const(a), const(b)),
+                   type(a) is type(b) and a == b)
+    yield ('kind', 'Constant(1) against Name x', run(const(1), name('x')), False)
+    yield ('kind', 'Name x against Constant(1)', run(name('x'), const(1)), False)
+    yield ('kind', 'Compare against IfExp (same number of fields)',
+           run(cm.ast('Compare', left=name('a'), ops=[cm.ast('Lt')], comparators=[name('b')]),
+               cm.ast('IfExp', test=name('a'), body=name('b'), orelse=name('c'))), False)
+    yield ('kind', 'operator Add against operator Sub (no fields at all)', run(cm.ast('Add'), cm.ast('Sub')), False)
+    yield ('kind', 'Break against Continue', run(cm.ast('Break'), cm.ast('Continue')), False)
+    yield ('kind', 'List against Tuple (identical field names)',
+           run(cm.ast('List', elts=[name('a')], ctx=cm.ast('Load')),
+               cm.ast('Tuple', elts=[name('a')], ctx=cm.ast('Load'))), False)
+    yield ('kind', 'operator Add against operator Add', run(cm.ast('Add'), cm.ast('Add')), True)
+    yield ('content', 'Name x against Name x', run(name('x'), name('x')), True)
+    yield ('content', 'Name x against Name y', run(name('x'), name('y')), False)
+    yield ('content', 'Attribute .f against Attribute .g',
+           run(cm.ast('Attribute', value=name('o'), attr='f', ctx=cm.ast('Load')),
+               cm.ast('Attribute', value=name('o'), attr='g', ctx=cm.ast('Load'))), False)
+    yield ('content', 'Attribute .f against Attribute .f',
+           run(cm.ast('Attribute', value=name('o'), attr='f', ctx=cm.ast('Load')),
+               cm.ast('Attribute', value=name('p'), attr='f', ctx=cm.ast('Load'))), True)
+    yield ('content', 'two fields: first differs, last agrees (alias name/asname)',
+           run(cm.ast('alias', name='a', asname='z'), cm.ast('alias', name='b', asname='z')), False)
+    yield ('content', 'two fields: first agrees, last differs',
+           run(cm.ast('alias', name='a', asname='y'), cm.ast('alias', name='a', asname='z')), False)
+    yield ('optional', 'absent optional child in the pattern (alias asname=None) against a present one',
+           run(cm.ast('alias', name='a', asname=None), cm.ast('alias', name='a', asname='z')), True)
+    yield ('optional', 'pattern literal None against student literal 5', run(const(None), const(5)), False)
+    yield ('ignores', "Name x against Name y with ignores=['id']", run(name('x'), name('y'), ignores=['id']), True)
+    yield ('meta', 'Name x against Name x when the meta fields disagree', run(name('x'), name('x'), meta=False), False)
+    yield ('structure', 'BinOp against BinOp (children are matched elsewhere)',
+           run(cm.ast('BinOp', left=name('a'), op=cm.ast('Add'), right=name('b')),
+               cm.ast('BinOp', left=name('c'), op=cm.ast('Sub'), right=name('d'))), True)
+
+
+def r7_literal_identity(ctx, sym):
+    ctx.rule('R7', "shallow_match_main (which decides ensure_literal/prevent_literal), executed abstractly on every "
+                   "pair of literal nodes over 14 representative values: a pattern literal matches a student literal "
+                   "iff type and value are both equal (CPython's == alone identifies 1, True and 1.0)")
+    n = 0
+    for tag, desc, got, want in shallow_match_table(ctx, sym):
+        if tag != 'literal':
+            continue
+        n += 1
+        ctx.check(got is want, 'R7', 'shallow_match_main:' + desc, ctx.repo.module(MATCH),
+                  ctx.repo.module(MATCH).func('StretchyTreeMatcher.shallow_match_main'),
+                  "%s: %s, expected %s" % (desc, 'matches' if got is True else ('no match' if got is False else got),
+                                           'a match' if want else 'no match'),
+                  "prevent_literal(1) fires on the program `x = True` / `y = 1.0`; ensure_literal(0) is satisfied by "
+                  "`False`", construct='shallow_match_main')
+    ctx.floor('R7', 'literal pairs', n, 150)
 
 
 def classify_typed_equality(v, mod, sym):
